@@ -49,6 +49,7 @@ def opP11 : P Helpers.Op := do
   | 2 => do let e ← nameP; let s ← srcP11; let d ← dstP11; let p ← bool; pure (.addTransition e s d p)
   | 3 => do let e ← nameP; let s ← optNameP; let d ← optNameP; pure (.removeTransition e s d)
   | 4 => do let m ← nat; let o ← objP; pure (.addModel m o)
+  | 6 => do let k ← nat; pure (.failing (match k with | 1 => .valueError | 2 => .attributeError | 3 => .machineError | _ => .keyError))
   | _ => do let m ← nat; let e ← nameP; pure (.fire m e)
 
 def encName (n : Name) : List Nat := n.length :: n
